@@ -419,7 +419,12 @@ def _named_objs(objlist, namesdict=None):
                 unhashables.append((k, v))
 
     for obj in objlist:
-        if objtoname and _hashable(obj) in objtoname:
+        try:
+            named = bool(objtoname) and _hashable(obj) in objtoname
+        except TypeError:
+            # an unhashable object among hashable named ones
+            named = False
+        if named:
             k = objtoname[_hashable(obj)]
         elif any(obj is v for (_, v) in unhashables):
             k = [k for (k, v) in unhashables if v is obj][0]
